@@ -72,6 +72,8 @@ def check_c02(pid, tier, t0, replay_key):
         findings += f92
         obl += o92
         stats["skippable_ids"] = sorted(e1.fmt_id(i) for i in skippable)
+    if tier == "thorough":
+        stats["selftest"] = run_selftest(pid)
     n_touch = sum(len(j["touches"]) for j in M.jobs.values())
     measured = {"work_impls": len(M.jobs), "slots": len(M.slots), "unknown_jobs": stats["unknown_jobs"],
                 "rewrites": len(M.rewrites), "dynamic_sites": len(M.dynamic), "touches": n_touch,
@@ -110,6 +112,18 @@ def check_c02(pid, tier, t0, replay_key):
     ]
     return common.finish(pid, tier, t0, findings, obl, samples, explanation, rule_text, st, assumptions, TRUSTED,
                          f"./check {pid} --tier {tier}", replay_key)
+
+
+def run_selftest(pid):
+    """thorough tier: mutation self-test of the analyser on scratch copies (never executes fontc)"""
+    if os.environ.get("FONTC_VERIF_NO_EVIDENCE"):
+        return []
+    import selftest
+    res = selftest.run_mutants(pid)
+    missed = [r["name"] for r in res if r["status"] == "missed"]
+    if missed:
+        raise common.CannotSee(f"analyser self-test: mutants not reported: {missed}")
+    return [{"name": r["name"], "status": r["status"]} for r in res]
 
 
 def _merged_records(P, P2):
